@@ -45,3 +45,28 @@ Example C13_iff_example :
   snd (pass k [4%nat] Down None s) == 1 /\ lo (fst (pass k [4%nat] Down None s) 1%nat) == 1.
 Proof. vm_compute. split; reflexivity. Qed.
 Print Assumptions C13_iff_example.
+
+(* ---------- first-order tables (partial, named so): every amount the first-order engine reports is produced by one of
+   two aggregation functions; each reports exactly the movement of the rows it writes, every row counted once
+   (duplicate proposals merged first), all terms non-negative -- hence zero exactly when no written row moved.
+   The lifting to whole node calls and passes (sums of these amounts) is checked on the implementation by the
+   `fol_c13` monitor and the exact correspondence, not proved. ---------- *)
+From LNN Require Import Fol.
+From LNN.proofs Require Import FolProofs ConnProofs AmountProofs.
+Theorem C13_fol_single_row_partial : forall s a i g new, FRange s -> tmem (ftab s i) g = true ->
+  let r := f_write (s, a) i g new in
+  snd r == a + moved (fget s i g) (fget (fst r) i g) /\
+  0 <= moved (fget s i g) (fget (fst r) i g) /\
+  (moved (fget s i g) (fget (fst r) i g) == 0 <-> bnd_eq (fget (fst r) i g) (fget s i g)) /\
+  (forall j h, (j <> i \/ h <> g) -> fget (fst r) j h = fget s j h).
+Proof. exact f_write_amount. Qed.
+Print Assumptions C13_fol_single_row_partial.
+Theorem C13_fol_merged_rows_partial : forall s a j props, FRange s -> (forall g, In g (map fst props) -> tmem (ftab s j) g = true) ->
+  let r := f_write_many (s, a) j props in
+  let rows := merged_rows s j props in
+  NoDup (map fst rows) /\
+  snd r == a + qsum (map (fun gb => moved (fget s j (fst gb)) (snd gb)) rows) /\
+  (forall g v, In (g, v) rows -> fget (fst r) j g = bred v) /\
+  (forall g v, In (g, v) rows -> 0 <= moved (fget s j g) v).
+Proof. exact f_write_many_amount. Qed.
+Print Assumptions C13_fol_merged_rows_partial.
